@@ -2,15 +2,17 @@
 
 
 class Msg(object):
-    def __init__(self, x=0.0):
+    def __init__(self, x=0.0, f=0.0, g=0.0):
         self.value = 0.0       # written by the monitor when the assertion is "o.value = ..."
         self.x = x             # read by formulas over "o.x"
+        self.f = f             # o.f, o.g: read and / or assigned (spec/Inputs.tla behaviours)
+        self.g = g
 
-    def __eq__(self, other):   # the caller's data is "unchanged" when the input field is (value is the monitor's to write)
-        return isinstance(other, Msg) and self.x == other.x
+    def __eq__(self, other):   # the caller's data is "unchanged" when the input fields are (value is the monitor's to write)
+        return isinstance(other, Msg) and (self.x, self.f, self.g) == (other.x, other.f, other.g)
 
     def __ne__(self, other):
         return not self.__eq__(other)
 
     def __repr__(self):
-        return "Msg(%r)" % (self.x,)
+        return "Msg(%r, %r, %r)" % (self.x, self.f, self.g)
